@@ -194,14 +194,9 @@ theorem declareFieldIn_clean (ty : TypeName) (info : FormatInfo) (allowEmpty : B
     simp only [show (TypeName.decimal == TypeName.decimal) = true from rfl, if_true]
     refine Clean2.bind (Clean2.of_clean (Range.parse_clean _ _)) ?_
     intro length _
-    split
-    all_goals (
-      refine Clean2.bind (Clean2.of_clean (DecimalRange.parse_clean _ _)) ?_
-      intro valid _
-      refine Clean2.bind (Clean2.of_clean (DecimalRange.parse_clean _ _)) ?_
-      intro _ _)
-    · exact Clean2.bind (Clean2.ok _) (fun _ _ => Clean2.ok _)
-    · exact Clean2.bind Clean2.unsupported (fun _ h => by cases h)
+    refine Clean2.bind (Clean2.of_clean (DecimalRange.parse_clean _ _)) ?_
+    intro valid _
+    exact Clean2.bind (Clean2.of_clean (Range.parse_clean _ _)) (fun _ _ => Clean2.ok _)
   | datetime =>
     simp only [show (TypeName.datetime == TypeName.decimal) = false from rfl, Bool.false_eq_true, if_false]
     refine Clean2.bind (Clean2.of_clean (Range.parse_clean _ _)) ?_
@@ -334,13 +329,9 @@ theorem declareFieldIn_wf (ty : TypeName) (info : FormatInfo) (allowEmpty : Bool
     simp only [show (TypeName.decimal == TypeName.decimal) = true from rfl, Bool.false_eq_true, if_false, if_true] at h
     obtain ⟨length, _, h⟩ := bind_ok h
     obtain ⟨valid, hvalid, h⟩ := bind_ok h
-    obtain ⟨_, _, h⟩ := bind_ok h
-    split at h
-    · obtain ⟨len, _, h⟩ := bind_ok h
-      cases h
-      exact DecimalRange.parse_fin _ _ _ hvalid
-    · obtain ⟨len, hl, h⟩ := bind_ok h
-      cases hl
+    obtain ⟨len, _, h⟩ := bind_ok h
+    cases h
+    exact DecimalRange.parse_fin _ _ _ hvalid
   | datetime =>
     simp only [show (TypeName.datetime == TypeName.decimal) = false from rfl, Bool.false_eq_true, if_false, if_true] at h
     obtain ⟨length, _, h⟩ := bind_ok h
